@@ -10,6 +10,7 @@ mod idx;
 mod refmodel;
 mod txkit;
 mod util;
+mod wallet;
 mod world;
 
 use evidence::Report;
@@ -84,6 +85,7 @@ fn main() {
       "C09" => Some(chain::runes::run(&ctx, "C09")),
       "C10" => Some(chain::runes::run(&ctx, "C10")),
       "C11" => Some(chain::runes::run(&ctx, "C11")),
+      "C20" => Some(wallet::builder::run(&ctx)),
       "C16" => Some(chain::nofail::run(&ctx)),
       "C15" => Some(chain::configs::run(&ctx)),
       "C13" => Some(chain::crash::run(&ctx)),
